@@ -399,6 +399,23 @@ Section Generic.
     rewrite (classify_data (with_side b side) Hr Hlog). reflexivity.
   Qed.
 
+  (* resolving the pointer of a batch against the object made from that batch *)
+  Lemma resolve_own_upload (c : cfg) (b : batch) (x : N) (u : bytes) (z : bool) :
+    b_rows b <> 0 -> mhas (b_meta b) c30_k_log_level = false -> url_ok (c_val c) (x :: u) = true ->
+    resolve (Some c) (pointer_batch b) (pointer_meta (x :: u) (sha (enc [b])))
+            (Some (Build_served (x :: u) (if z then comp (enc [b]) else enc [b]) z))
+      = ROk b (fetch_meta (x :: u)).
+  Proof.
+    intros Hr Hlog Hv.
+    rewrite (resolve_pointer c (pointer_batch b) _ _ x u (is_pointer_pm _ _) (mget_pm_loc _ _) Hv).
+    assert (Hf : fetch (Some (Build_served (x :: u) (if z then comp (enc [b]) else enc [b]) z)) (x :: u)
+                 = Some (enc [b])).
+    { unfold C30.fetch. cbn [s_url s_obj s_z]. rewrite beqb_refl.
+      destruct z; [apply decomp_comp | reflexivity]. }
+    rewrite Hf, sha_ok_pm, framed_enc, dec_enc. cbn [negb select_by].
+    rewrite (classify_data b Hr Hlog). reflexivity.
+  Qed.
+
   (* tampering: with an injective digest any other download is refused *)
   Lemma tamper_lemma c b size side url srv w :
     (forall a a', sha a = sha a' -> a = a') -> sha (enc [with_side b side]) <> [] ->
@@ -509,12 +526,15 @@ Proof.
   right; right. cbn in H. lia.
 Qed.
 
-Lemma model_meets_spec i : digest_ok i = true -> spec_ok i (model i) = true.
+Lemma model_meets_spec_seq i :
+  match i with Conc _ _ _ _ _ => False | _ => True end ->
+  digest_ok i = true -> spec_ok i (model i) = true.
 Proof.
-  destruct i as [t c b size side up sm sv | t c p m srv]; cbn [digest_ok].
-  2:{ intros _. unfold model, model_by, spec_ok. rewrite spec_res_model. reflexivity. }
+  destruct i as [t c b size side up sm sv | t c p m srv | t z v jobs s]; cbn [digest_ok]; intros Hnc;
+    [| | contradiction].
+  2:{ intros _. unfold model, model_by, spec_ok, spec_ok_seq. rewrite spec_res_model. reflexivity. }
   intros Hdig.
-  unfold model, model_by, spec_ok.
+  unfold model, model_by, spec_ok, spec_ok_seq.
   destruct (should_ext c b size) eqn:Hse.
   - destruct (should_ext_true _ _ _ Hse) as [c' [-> [Hs [Hr Ht]]]].
     unfold sexternalize_by. rewrite (ext_due_by swire SIpc SZ (ssha t) true c' b size side up Hs Hr Ht).
@@ -589,4 +609,145 @@ Proof.
   split; [exists w_tbl, (Some w_cfg), 16%Z, w_url; reflexivity |].
   split; [rewrite HL; eauto |].
   split; [discriminate | split; assumption].
+Qed.
+
+(* ---- overlapped externalizations: each one owns its bytes --------------------------- *)
+Lemma step_eqb_eq a b : step_eqb a b = true <-> a = b.
+Proof.
+  destruct a, b; cbn; try (split; [discriminate | intro H; discriminate H]);
+    rewrite Nat.eqb_eq; split; intro H; [now subst | now inversion H | now subst | now inversion H
+                                         | now subst | now inversion H | now subst | now inversion H].
+Qed.
+
+Section SchedProofs.
+  Variable wire : Type.
+  Variable enc : list batch -> wire.
+  Variable comp : wire -> wire.
+  Variable sha : wire -> bytes.
+  Variable zstd : bool.
+  Variable jb : nat -> batch.
+
+  Notation srun := (srun wire enc comp sha false zstd jb).
+  Notation sstep := (sstep wire enc comp sha false zstd jb).
+
+  (* one externalization run on its own *)
+  Definition jstep (k : nat) (j : jstate wire) (s : step) : jstate wire :=
+    match s with
+    | SSer _ => {| j_buf := Some (enc [jb k]); j_sha := j_sha j; j_z := j_z j; j_obj := j_obj j |}
+    | SHash _ => {| j_buf := j_buf j; j_sha := option_map sha (j_buf j); j_z := j_z j; j_obj := j_obj j |}
+    | SComp _ => {| j_buf := j_buf j; j_sha := j_sha j; j_z := option_map comp (j_buf j); j_obj := j_obj j |}
+    | SUp _ => {| j_buf := j_buf j; j_sha := j_sha j; j_z := j_z j;
+                  j_obj := if zstd then j_z j else j_buf j |}
+    end.
+
+  (* a step of externalization i touches, and reads, only externalization i's state *)
+  Lemma sstep_own st a k :
+    cs_job (sstep st a) k = if Nat.eqb (step_job a) k then jstep k (cs_job st k) a else cs_job st k.
+  Proof.
+    destruct a as [i | i | i | i]; cbn [C30.sstep cs_job cs_pool step_job jstep]; unfold upd, rd;
+      rewrite (Nat.eqb_sym i k); destruct (Nat.eqb k i) eqn:E; try reflexivity;
+      apply Nat.eqb_eq in E; subst i; reflexivity.
+  Qed.
+
+  Lemma srun_own s : forall st k,
+    cs_job (srun st s) k = fold_left (jstep k) (proj k s) (cs_job st k).
+  Proof.
+    unfold C30.srun. induction s as [|a s IH]; intros st k; cbn [fold_left proj filter]; [reflexivity |].
+    rewrite IH, sstep_own. fold (proj k s). destruct (Nat.eqb (step_job a) k); reflexivity.
+  Qed.
+
+  (* for EVERY interleaving that keeps each externalization's program order, what
+     externalization k hashed and what the storage copied for it are functions of batch k *)
+  Lemma own_bytes_lemma n s k :
+    wf_sched zstd n s = true -> (k < n)%nat ->
+    let j := cs_job (srun (cs0 wire) s) k in
+    j_sha j = Some (sha (enc [jb k])) /\
+    j_obj j = Some (if zstd then comp (enc [jb k]) else enc [jb k]).
+  Proof.
+    intros Hwf Hk. unfold wf_sched in Hwf. apply andb_true_iff in Hwf as [_ Hwf].
+    rewrite forallb_forall in Hwf. specialize (Hwf k).
+    assert (Hin : In k (seq 0 n)) by (apply in_seq; lia). specialize (Hwf Hin).
+    apply (list_eqb_eq step_eqb step_eqb_eq) in Hwf.
+    cbv zeta. rewrite srun_own, Hwf. unfold job_steps.
+    assert (Hz : zstd = true \/ zstd = false) by (destruct zstd; auto).
+    destruct Hz as [Hz | Hz]; rewrite Hz; cbn; rewrite ?Hz; split; reflexivity.
+  Qed.
+End SchedProofs.
+
+(* ---- the Conc part of the decidable form ---------------------------------------------- *)
+Lemma nth_map_seq {A} (f : nat -> A) n k d : (k < n)%nat -> nth k (map f (seq 0 n)) d = f k.
+Proof.
+  intro H. rewrite (nth_indep _ d (f 0%nat)) by (rewrite map_length, seq_length; exact H).
+  rewrite map_nth, seq_nth by exact H. reflexivity.
+Qed.
+
+Lemma conc_job_spec t z v jobs s k :
+  digest_ok (Conc t z v jobs s) = true -> conc_ok (Conc t z v jobs s) = true -> (k < length jobs)%nat ->
+  spec_job t z (job_batch jobs k) (job_url jobs k)
+    (conc_job_out t z v jobs
+       (srun swire SIpc SZ (ssha t) false z (job_batch jobs) (cs0 swire) s) k) = true.
+Proof.
+  cbn [digest_ok conc_ok]. intros Hdig Hok Hk.
+  apply andb_true_iff in Hok as [Hwf Hjobs].
+  rewrite forallb_forall in Hdig, Hjobs.
+  assert (Hin : In (nth k jobs (dummy_batch, [])) jobs) by (apply nth_In; exact Hk).
+  specialize (Hdig _ Hin). specialize (Hjobs _ Hin).
+  cbv beta in Hdig, Hjobs.
+  apply andb_true_iff in Hjobs as [Hjobs Hv]. apply andb_true_iff in Hjobs as [Hjobs Hne].
+  apply andb_true_iff in Hjobs as [Hr Hlog].
+  apply negb_true_iff in Hr, Hlog. apply N.eqb_neq in Hr.
+  change (fst (nth k jobs (dummy_batch, []))) with (job_batch jobs k) in Hdig, Hr, Hlog.
+  change (snd (nth k jobs (dummy_batch, []))) with (job_url jobs k) in Hne, Hv.
+  set (b := job_batch jobs k) in *. set (url := job_url jobs k) in *.
+  destruct (own_bytes_lemma swire SIpc SZ (ssha t) z (job_batch jobs) _ s k Hwf Hk) as [Hsha Hobj].
+  cbv zeta in Hsha, Hobj. fold b in Hsha, Hobj.
+  unfold conc_job_out. fold b url. rewrite Hsha, Hobj.
+  unfold spec_job. cbn [jo_batch jo_meta jo_up jo_res].
+  rewrite batch_eqb_refl, mget_pm_loc, mget_pm_sha, ups_eqb_refl1.
+  destruct (ssha t (SIpc [b])) as [|h0 hs] eqn:Eh; [discriminate |]. rewrite <- Eh.
+  cbn [opt_eqb andb]. rewrite !beqb_refl. cbn [andb].
+  clearbody url. destruct url as [|x u]; [discriminate |].
+  unfold sresolve.
+  rewrite (resolve_own_upload swire SIpc sdec SZ sdecomp (ssha t) sframed sdec_enc sdecomp_comp sframed_enc
+             (conc_cfg z v) b x u z Hr Hlog Hv).
+  apply batch_eqb_refl.
+Qed.
+
+Lemma model_meets_spec i : digest_ok i = true -> conc_ok i = true -> spec_ok i (model i) = true.
+Proof.
+  destruct i as [t c b size side up sm sv | t c p m srv | t z v jobs s].
+  - intros H _. now apply model_meets_spec_seq.
+  - intros H _. now apply model_meets_spec_seq.
+  - intros Hd Hc. unfold model, model_by, spec_ok, conc_outs.
+    rewrite map_length, seq_length, Nat.eqb_refl. cbn [andb].
+    apply forallb_forall. intros k Hin. apply in_seq in Hin.
+    rewrite nth_map_seq by lia. apply conc_job_spec; auto; lia.
+Qed.
+
+(* ---- the pooled-buffer variant is refuted by a schedule ------------------------------ *)
+Definition w_data2 : batch :=
+  {| b_schema := str "x:int64"; b_smeta := []; b_rows := 2; b_vals := [((-3)%Z, 2)]; b_meta := [] |}.
+Definition w_tbl2 : shatbl := [(SIpc [w_data], str "00"); (SIpc [w_data2], str "22")].
+Definition w_jobs : list (batch * bytes) := [(w_data, str "https://h/o/1"); (w_data2, str "https://h/o/2")].
+(* A parked in its upload while B runs completely, then A's upload copies *)
+Definition w_sched_upload : list step := [SSer 0; SHash 0; SSer 1; SHash 1; SUp 1; SUp 0].
+(* B serializes between A's serialization and A's hash *)
+Definition w_sched_hash : list step := [SSer 0; SSer 1; SHash 0; SUp 0; SHash 1; SUp 1].
+
+Lemma pooled_refuted_lemma :
+  let i1 := Conc w_tbl2 false VHttps w_jobs w_sched_upload in
+  let i2 := Conc w_tbl2 false VHttps w_jobs w_sched_hash in
+  digest_ok i1 = true /\ conc_ok i1 = true /\ digest_ok i2 = true /\ conc_ok i2 = true /\
+  (* A's pointer is refused: the stored object holds B's bytes under A's checksum *)
+  (exists o1, model_pooled i1 = OConc [o1; nth 1 (conc_outs false w_tbl2 false VHttps w_jobs w_sched_upload) dummy_out]
+              /\ jo_up o1 = [(SIpc [w_data2], false)] /\ jo_res o1 = Some (RErr ESha)) /\
+  (* A's pointer validates and resolves to B's values *)
+  (exists o1 o2, model_pooled i2 = OConc [o1; o2]
+              /\ jo_res o1 = Some (ROk w_data2 (fetch_meta (str "https://h/o/1")))) /\
+  spec_ok i1 (model_pooled i1) = false /\ spec_ok i2 (model_pooled i2) = false /\
+  spec_ok i1 (model i1) = true /\ spec_ok i2 (model i2) = true.
+Proof.
+  cbv zeta. repeat split; try (vm_compute; reflexivity).
+  - eexists. vm_compute. repeat split; reflexivity.
+  - eexists. eexists. vm_compute. repeat split; reflexivity.
 Qed.
